@@ -1,6 +1,6 @@
 #!/bin/bash
 # prerequisite: git clone /repo /tmp/sim-repo   (remove it afterwards; harness/Cargo.toml is restored to /repo at the end)
-# throw-away mutations on the private clone /tmp/sim-repo (branch main = unchanged tree)
+# throw-away mutations on the private clone /tmp/sim-repo (branch main = current /repo main)
 set -u
 cd /tmp/sim-repo
 run_check() {
@@ -61,6 +61,15 @@ s=s.replace('''        // Use deterministic RNG
 open(p,'w').write(s)
 PY
 run_check; git checkout -q .
+
+
+# the four landed fixes, each reverted on its own (reverse-applied, not committed)
+for h in 3012c3c dc1be9d 7f8c4c6 474577c; do
+  echo "== (revert) $(git log -1 --format='%h %s' $h | cut -c1-110)"
+  git revert -n $h >/dev/null 2>&1 || { echo "  revert failed"; git revert --abort 2>/dev/null; git checkout -q .; continue; }
+  run_check
+  git revert --abort >/dev/null 2>&1; git reset -q --hard HEAD
+done
 
 sed -i 's#path = "/tmp/sim-repo"#path = "/repo"#' /work/sim/harness/Cargo.toml
 echo "== restored"; cd /work/sim && git diff --stat harness/Cargo.toml
